@@ -101,6 +101,71 @@ def setup():
     return v
 
 
+def soundfile_model(v):
+    """assumed contract of soundfile.SoundFile (libsndfile): .frames / .samplerate are functions of the file; seek(k) needs
+    0 <= k <= frames (seeking past the end raises) and sets the read position; read(frames=n, always_2d=True, fill_value=0)
+    returns the frames from the position on -- n of them zero-filled past the end, all remaining ones for n < 0"""
+    from pyvc.values import Ref
+    PATH = opaque_sort("AudioPath")
+    NFR = z3.Function("file_frames", PATH, z3.IntSort())
+    SR = z3.Function("file_samplerate", PATH, z3.IntSort())
+    FR = z3.Function("file_frames_from", PATH, z3.IntSort(), z3.IntSort(), opaque_sort("Samples"))
+    CLS = "soundfile.SoundFile"
+    ids = __import__("itertools").count(50_000)
+
+    def note(ex):
+        ex.trace["assumed"].add("soundfile.SoundFile: frames / samplerate of the file; seek within [0, frames]; read(n, fill_value=0) = the frames from the position, zero-filled")
+
+    def opened(ex, p, args, kw, node):
+        note(ex)
+        ref = Ref(next(ids), CLS)
+        heap = dict(p.heap or {})
+        heap[ref.ident] = {"_path": args[0], "_pos": Num(0), "frames": Num(NFR(args[0].t)), "samplerate": Num(SR(args[0].t))}
+        ex.bg.append(NFR(args[0].t) >= 0)
+        return [(p.with_heap(heap), ref)]
+
+    def attr(which):
+        def h(ex, p, args, kw, node):
+            path = (p.heap or {})[args[0].ident]["_path"]
+            return [(p, Num((NFR if which == "frames" else SR)(path.t)))]
+        return h
+
+    def seek(ex, p, args, kw, node):
+        selfv, k = args[0], args[1]
+        path = (p.heap or {})[selfv.ident]["_path"]
+        p, kn = ex.as_num(k, p, node)
+        ex.side.append((f"soundfile-seek-within-the-file@{ex.module.name}:{getattr(node, 'lineno', 0)}", list(p.cond),
+                        z3.And(kn.t >= 0, kn.t <= NFR(path.t))))
+        return [(p.heap_set(selfv.ident, "_pos", kn), kn)]
+
+    def read(ex, p, args, kw, node):
+        selfv = args[0]
+        st = (p.heap or {})[selfv.ident]
+        n = kw.get("frames", args[1] if len(args) > 1 else Num(-1))
+        a2d, fill = kw.get("always_2d"), kw.get("fill_value")
+        ok = (isinstance(a2d, Bool) and z3.is_true(z3.simplify(a2d.t)) and isinstance(fill, Num) and z3.is_true(z3.simplify(fill.real() == 0)))
+        if not ok:
+            raise Unsupported("SoundFile.read without always_2d=True, fill_value=0")
+        return [(p, Opq("Samples", FR(st["_path"].t, st["_pos"].t, n.t), dict(rows=n.t, channels=z3.Int("channels"))))]
+    v.handlers[CLS] = opened
+    v.handlers[f"method:{CLS}.seek"] = seek
+    v.handlers[f"method:{CLS}.read"] = read
+    # the specification's own view of the file
+    v.handlers["contracts.audio.frames_in_file"] = lambda ex, p, args, kw, node: [(p, Num(NFR(args[0].t)))]
+    v.handlers["contracts.audio.samplerate_of_file"] = lambda ex, p, args, kw, node: [(p, Num(SR(args[0].t)))]
+    v.handlers["contracts.audio.frames_from"] = lambda ex, p, args, kw, node: [(p, Opq("Samples", FR(args[0].t, ex.as_num(args[1], p, node)[1].t, ex.as_num(args[2], p, node)[1].t)))]
+    v.handlers["contracts.audio.same_frames"] = lambda ex, p, args, kw, node: [(p, Bool(args[0].t == args[1].t))]
+    return v
+
+
+def load_audio_obligations():
+    """the real load_audio against the soundfile contract (a separate verifier: in `setup` load_audio itself is replaced by its contract)"""
+    v = with_models(new_verifier())
+    v.load_contracts("contracts.audio")
+    soundfile_model(v)
+    return v, (lambda: v.verify("LoadAudio", "C15"))
+
+
 def wiring_obligations(v):
     """load_clip hands load_audio offset = floor(start x samplerate) and samples = floor(duration x samplerate)"""
     from pyvc.symex import Exec, Path
@@ -139,13 +204,16 @@ def run(s):
              task(v, "compute_spectrogram", lambda: v.verify("ComputeSpectrogram", "C15", fixed={"audio": arr_fixed("audio", with_step=STEP), "window_type": Str("hann"),
                                                                                                   "detrend": NONE, "padded": NONE, "boundary": NONE},
                                                              extra_pre=lambda vals: STEP.t > 0))]
+    va, gen = load_audio_obligations()
+    tasks.append(task(va, "load_audio", gen))
     s.attempt_all(tasks)
     s.min_obligations = 8
     s.discharge_all()
     s.triage()
     s.standin("audio_files")
     s.level = "other"
-    s.explanation = ("Proved (deductive, mode R, relative to the soundfile / scipy / xarray / numpy contracts): load_clip reads floor(start x sr) "
+    s.explanation = ("Proved (deductive, mode R, relative to the soundfile / scipy / xarray / numpy contracts): load_audio seeks to min(offset, frames) -- never "
+                     "beyond the file -- and returns read(samples, zero fill) from there with the file's sample rate; load_clip reads floor(start x sr) "
                      "for floor(duration x sr) frames from the recording's path, its time axis has exactly that many points (else the xarray "
                      "constructor would raise) and frame i carries (offset + i)/sr with step 1/sr; the resample drift lemma (coordinates within one "
                      "advertised step for every i); compute_spectrogram's time axis starts at the source's start and equals first + i x the "
